@@ -32,6 +32,9 @@ static parsec_context_t ctx;
 static parsec_taskpool_t member[NMAX];
 static int nadd; static parsec_taskpool_t *added; static parsec_context_t *added_ctx;
 int parsec_context_add_taskpool(parsec_context_t *c, parsec_taskpool_t *tp){ nadd++; added = tp; added_ctx = c; return PARSEC_SUCCESS; }
+/* referenced by the real taskpool destructor / the detector's module table; never reached here */
+int parsec_context_remove_taskpool(parsec_taskpool_t *tp){ (void)tp; VASSERTM(0, "no taskpool is destroyed in this scenario"); return 0; }
+const parsec_termdet_base_component_t parsec_termdet_local_component;
 static int term_cb; static int term_saw_pa;
 static void compound_terminated(parsec_taskpool_t *tp){ term_cb++; term_saw_pa = tp->nb_pending_actions; }
 extern int vp_destroyed;
